@@ -95,6 +95,7 @@ func setOf(m map[uint64]bool) []uint64 {
 }
 
 func TestWorker(t *testing.T) {
+	realTB = t
 	jp := os.Getenv("VERIF_JOB")
 	if jp == "" {
 		t.Skip("no VERIF_JOB")
